@@ -6,7 +6,7 @@ set -eu
 K=$1; ID=$2
 case $K in
   s4|s5|s6) T=/verif/tools/agents/seed_round4_prompt_template.txt;;
-  s7) T=/verif/tools/agents/seed_round7_prompt_template.txt;;
+  s7|s8) T=/verif/tools/agents/seed_round7_prompt_template.txt;;
   bh|bh2|bh3|bh4) T=/verif/tools/agents/bughunt_prompt_template.txt;;
   rf|rf7) T=/verif/tools/agents/refactor_round4_prompt_template.txt;;
   *) echo "kind?"; exit 2;;
